@@ -6,6 +6,7 @@ import (
 	"fmt"
 	"os"
 	"os/exec"
+	"time"
 
 	"github.com/ulikunitz/lz"
 	"verif/mc/engine"
@@ -262,7 +263,22 @@ func loopShards(tier string) []engine.Shard {
 				st.CapsHit = append(st.CapsHit, "loop-level interleavings skipped: no yield-instrumented build available (LZMC_YIELD_BIN unset)")
 				return
 			}
+			// the exploration happens in the subprocess: keep the stall monitor of this process quiet meanwhile
+			stop := make(chan struct{})
+			go func() {
+				t := time.NewTicker(10 * time.Second)
+				defer t.Stop()
+				for {
+					select {
+					case <-stop:
+						return
+					case <-t.C:
+						engine.Progress.Add(1)
+					}
+				}
+			}()
 			out, err := exec.Command(bin, "worker", "C13", name, "--tier", tier).Output()
+			close(stop)
 			if err != nil {
 				engine.Fatalf("loop-level worker for %s failed: %v\n%s", name, err, out)
 			}
